@@ -442,6 +442,8 @@ def run_scenario(sc):
                 e = {"d": b["d"], "src": b["src"], "role": b["role"], "bc": bool(b.get("bc"))}
                 if b["role"] == "rp":
                     e.update(inv=b["inv"], ot=CANARY_T, oi=CANARY_I, val=val)
+                elif b["role"] == "last":
+                    e.update(inv=b["inv"])
                 batch.append(e)
             rec["batch"] = batch
             _ingest(app, batch)
@@ -498,6 +500,11 @@ EDGE = [0x00, 0x01, 0x02, 0x04, 0x08, 0x0A, 0x0B, 0x0E, 0x0F, 0x10, 0x1E, 0x1F, 
 
 def g(d, src=1, bc=False):
     return {"d": bytes(d).hex(), "src": src, "role": "g", "bc": bc}
+
+
+def last(d, inv, src=1):
+    """the final segment of a request whose other segments precede it in the batch: a reply is due (Trace_Device LastOK)"""
+    return {"d": bytes(d).hex(), "src": src, "role": "last", "bc": False, "inv": inv}
 
 
 def substitutions(name, f, bc, rng, per_pos):
@@ -649,6 +656,9 @@ def generate(tier, seed, frames):
     rp = lambda: apdu_mod.ReadPropertyRequest(objectIdentifier=("analogValue", 1), propertyIdentifier="presentValue")
     mk = lambda seq, mor, data, inv=90: wire(rp(), inv=inv, seg={"seq": seq, "mor": mor, "data": data}, sa=True)
     s0, s1 = mk(0, True, rp_body[:4]), mk(1, False, rp_body[4:])
+    yield {"batch": [g(s0), last(s1, 90)], "label": {"k": "segments", "case": "complete, reply due"}}
+    s3 = [mk(0, True, rp_body[:3]), mk(1, True, rp_body[3:6]), mk(2, False, rp_body[6:])]
+    yield {"batch": [g(s3[0]), g(s3[1]), last(s3[2], 90)], "label": {"k": "segments", "case": "complete in three, reply due"}}
     for label, seq in (("complete", [s0, s1]), ("reversed", [s1, s0]), ("dup-first", [s0, s0]), ("gap", [s0, mk(2, False, rp_body[4:])]),
                        ("only-last", [s1]), ("first-then-unsegmented", [s0, wire(rp(), inv=90)]),
                        ("first-then-other-id", [s0, mk(1, False, rp_body[4:], inv=91)])):
@@ -716,6 +726,17 @@ def generate(tier, seed, frames):
                    "label": {"k": "segments", "case": "foreign device: BVLL result %04x from %s, then requests" % (code, "the BBMD" if src == 3 else "a client")}}
     for name in ("readProperty", "whoIs", "readPropertyMultiple-big-segmented"):
         yield {"foreign": True, "batch": [g(frames[name][0], src=1, bc=frames[name][1])], "label": {"k": "valid", "frame": name, "foreign": True}}
+    # a device that files I-Ams: the I-Am of a station it did not know arrives between the segments of that station's request
+    # (answered with an error: the object does not exist; or with an ack) -- the reply still comes, nothing is left
+    iam_ok = wire(apdu_mod.IAmRequest(iAmDeviceIdentifier=("device", 77), maxAPDULengthAccepted=480, segmentationSupported="segmentedBoth",
+                                      vendorID=15), link="bcast", dadr=GlobalBroadcast())
+    for oid in (("analogValue", 99), ("analogValue", 1)):
+        rq = lambda: apdu_mod.ReadPropertyRequest(objectIdentifier=oid, propertyIdentifier="presentValue")
+        body = wire(rq(), inv=95)[10:]
+        seg = lambda seq, mor, data: wire(rq(), inv=95, seg={"seq": seq, "mor": mor, "data": data}, sa=True)
+        for caching in (True, False):
+            yield {"caching": caching, "batch": [g(seg(0, True, body[:4]), src=1), g(iam_ok, src=1, bc=True), last(seg(1, False, body[4:]), 95)],
+                   "label": {"k": "segments", "case": "I-Am of the requester between the two segments of its request (%s %d)" % oid}}
     # a subscriber that never acknowledges: confirmed notifications queue up behind each other and time out in turn
     sub = frames["subscribeCOV-confirmed"][0]
     again = bytearray(sub)
